@@ -17,6 +17,9 @@ ASSUMPTIONS = [
 ]
 
 SYSCALLS = "rename,renameat,renameat2,unlink,unlinkat,write,pwrite64,ftruncate,fdatasync,fsync"
+# strace counts `when=K` per syscall number (the K-th rename, the K-th write, …), so kill points are (syscall, K) pairs
+POINTS_QUICK = [("rename", k) for k in range(1, 5)] + [("unlink", k) for k in range(1, 7)] + [("write", k) for k in range(1, 27)] + [("pwrite64", k) for k in range(1, 4)] + [("ftruncate", 1), ("fdatasync", 1), ("fsync", 1)]
+POINTS_THOROUGH = [("rename", k) for k in range(1, 8)] + [("unlink", k) for k in range(1, 12)] + [("write", k) for k in range(1, 50)] + [("pwrite64", k) for k in range(1, 8)] + [("ftruncate", k) for k in (1, 2)] + [("fdatasync", 1), ("fsync", 1), ("renameat", 1), ("unlinkat", 1)]
 
 
 def with_crashes(rng, case):
@@ -42,20 +45,28 @@ def with_crashes(rng, case):
     return depsgen.Case(case.names, case.rules, ops)
 
 
-def inject_scenario(K, stats):
-    """One strace kill-injection scenario on a 3-target project; returns (problems, info)."""
+def inject_scenario(point, stats, nested=False):
+    """One strace kill-injection scenario on a 3-target project; returns (problems, info).
+    nested=False: the whole command runs under strace, so the top-level process (which reaches its K-th call
+    first) is the one that dies; nested=True: only the redo-ifchange started by top.do runs under strace, so the
+    kill hits the process that builds mid and side (or one of its children)."""
+    call, K = point
     pr = Project()
     try:
         pr.write("src", "v1\n")
         pr.write("mid.do", "redo-ifchange src\n{ echo mid; cat src; } >$3\n")
         pr.write("side.do", "redo-ifchange src\necho side; cat src\n")
-        pr.write("top.do", "redo-ifchange mid side\ncat mid side\n")
+        pr.write("top.do", "${VERIF_RI:-redo-ifchange} mid side\ncat mid side\n")
+        pr.write(".ri-wrapper", "#!/bin/sh\nexec strace -f -o /dev/null -e trace=%s -e inject=%s:signal=KILL:when=$VERIF_INJECT_K %s/redo-ifchange \"$@\"\n" % (call, call, BIN), mode=0o755)
         rc, out, err = pr.run(["redo-ifchange", "top"])
         if rc != 0:
-            return ["setup build failed"], dict(K=K)
+            return ["setup build failed"], dict(K=point)
         pr.write("src", "v2\n")
-        rc, out, err = pr.run(["strace", "-f", "-o", "/dev/null", "-e", "trace=" + SYSCALLS, "-e", "inject=%s:signal=KILL:when=%d" % (SYSCALLS, K),
-                               "redo-ifchange", "top"], timeout=60)
+        if nested:
+            rc, out, err = pr.run(["redo-ifchange", "top"], env={"VERIF_RI": pr.path(".ri-wrapper"), "VERIF_INJECT_K": str(K)}, timeout=60)
+        else:
+            rc, out, err = pr.run(["strace", "-f", "-o", "/dev/null", "-e", "trace=" + call, "-e", "inject=%s:signal=KILL:when=%d" % (call, K),
+                                   "redo-ifchange", "top"], timeout=60)
         killed = rc != 0
         stats["killed" if killed else "not_reached"] += 1
         problems = []
@@ -76,7 +87,7 @@ def inject_scenario(K, stats):
         left = [f for f in os.listdir(pr.root) if f.endswith(".redo.tmp")]
         if left:
             problems.append("temporary files left after recovery: %r" % left)
-        return problems, dict(K=K, killed=killed, override_warnings=overr + re.findall(r"(\S+) - you modified it; skipping", err3), recovery_rc=rc2, stderr=(err2 + err3)[-800:])
+        return problems, dict(K="%s#%d" % (call, K), nested=nested, killed=killed, override_warnings=overr + re.findall(r"(\S+) - you modified it; skipping", err3), recovery_rc=rc2, stderr=(err2 + err3)[-800:])
     finally:
         pr.destroy()
 
@@ -95,9 +106,11 @@ def run(ctx):
     # (2) kill injection before every state-changing syscall
     if not viol:
         stats = dict(killed=0, not_reached=0)
-        kmax = 90 if thorough else 44
+        points = POINTS_THOROUGH if thorough else POINTS_QUICK
+        kmax = 2 * len(points)
         with ThreadPoolExecutor(max_workers=10) as ex:
-            res = list(ex.map(lambda K: inject_scenario(K, stats), range(1, kmax + 1)))
+            res = list(ex.map(lambda pt: inject_scenario(pt, stats), points))
+            res += list(ex.map(lambda pt: inject_scenario(pt, stats, nested=True), points))
         kf = [k for k in known_findings("C10") if k.get("id") == "rename-before-commit" and k.get("status") == "known"]
         window = []
         for problems, info in res:
@@ -106,14 +119,14 @@ def run(ctx):
             if kf and info.get("override_warnings") and all(("top holds" in p) for p in problems):
                 window.append(info["K"])
                 continue
-            p = write_replay("C10", "inject-%d" % info["K"], dict(kind="impl-monitor", info=info, problems=problems,
-                                                                   scenario="src -> mid, side -> top; rebuild after editing src under strace inject=%s:signal=KILL:when=%d; then redo-ifchange top; edit; redo-ifchange top" % (SYSCALLS, info["K"])))
-            viol.append(Violation("C10", p, "kill before the %d-th state-changing syscall of each process: %s" % (info["K"], "; ".join(problems))))
+            p = write_replay("C10", "inject-%s" % info["K"], dict(kind="impl-monitor", info=info, problems=problems,
+                                                                   scenario="src -> mid, side -> top; rebuild after editing src with SIGKILL injected by strace before the given call (%s, %s); then redo-ifchange top; edit; redo-ifchange top" % (info["K"], "nested redo-ifchange" if info.get("nested") else "whole command")))
+            viol.append(Violation("C10", p, "kill before %s of %s: %s" % (info["K"], "the nested redo-ifchange (and of its children)" if info.get("nested") else "each process", "; ".join(problems))))
             break
         if window:
-            known_hit.append("kill between rename(tmp, target) and the recording commit (strace when=%s): the recovery run says 'you modified it; skipping' for a file redo itself installed, exits 0, and the target stays stale after later edits (builder.rs record_new_state, the FIXME)" % ",".join(map(str, window)))
+            known_hit.append("kill between rename(tmp, target) and the recording commit (kill points %s): the recovery run says 'you modified it; skipping' for a file redo itself installed, exits 0, and the target stays stale after later edits (builder.rs record_new_state, the FIXME)" % ",".join(map(str, window)))
         cov["distribution"]["inject"] = dict(points=kmax, **stats, rename_window_hits=window)
         cov["evaluations"] += kmax
     cov["known_hit"] = known_hit
-    cov["rule"] += "; here with kill operations inserted before 45%% of the build commands (whole tree SIGKILLed when a chosen script reaches a chosen step), and a syscall-level kill enumeration (strace inject, K = 1..%d) on a 3-target project" % (60 if thorough else 34)
+    cov["rule"] += "; here with kill operations inserted before 45%% of the build commands (whole tree SIGKILLed when a chosen script reaches a chosen step), and a syscall-level kill enumeration (strace inject before the K-th rename/unlink/write/pwrite64/ftruncate/fsync of every process, %d points x {whole command, nested redo-ifchange}) on a 3-target project" % len(POINTS_THOROUGH if thorough else POINTS_QUICK)
     return cov
